@@ -1,6 +1,7 @@
 package e2
 
 import (
+	"sort"
 	"bytes"
 	"fmt"
 	"os"
@@ -23,6 +24,20 @@ type PathFunc func(t *testing.T, i int, rep *vk.Report)
 // The parent hands out index ranges; a child writes the index it is about to run to a progress
 // file, so a crash is attributed to exactly one path and exploration resumes after it.
 func RunPaths(t *testing.T, property, phase, testName string, n int, budget time.Duration, run PathFunc, describe func(i int) any, finish func(rep *vk.Report)) {
+	if only := os.Getenv("VERIF_ONLY"); only != "" {
+		// debugging / replay aid: run the paths whose description contains the given text, in-process
+		rep := vk.NewReport(property, phase, "E2-brokermc")
+		for i := 0; i < n; i++ {
+			if strings.Contains(fmt.Sprintf("%+v", describe(i)), only) {
+				run(t, i, rep)
+				fmt.Printf("path %d %+v -> %d violation(s)\n", i, describe(i), rep.ViolationsTotal)
+			}
+		}
+		for _, v := range rep.Violations {
+			fmt.Println("  ", v.Sig, v.Msg)
+		}
+		return
+	}
 	if r := os.Getenv("VERIF_RANGE"); r != "" {
 		runChild(t, property, phase, r, run)
 		return
@@ -184,3 +199,5 @@ func Observe(w *World, rep *vk.Report) {
 
 // MarkNontrivial records a digest of a path in which the property's mechanism was exercised.
 func MarkNontrivial(key string) { childStates.nontrivial.AddString(key) }
+
+func sortStrings(s []string) { sort.Strings(s) }
